@@ -66,4 +66,41 @@ theorem alphaLoop_value : ∀ (f v : Nat) (acc : Text), v ≤ f →
       have := Nat.div_add_mod (v - 1) 26
       omega
 
+theorem alphaValue_snoc (t : Text) (c : Nat) : alphaValue (t ++ [c]) = alphaValue t * 26 + (c - 96) := by
+  simp [alphaValue, List.foldl_append]
+
+/-- The loop writes back any letters string from its bijective base-26 value. -/
+theorem alphaLoop_of_value : ∀ (s : Text), (∀ c ∈ s, 97 ≤ c ∧ c ≤ 122) → ∀ (f : Nat) (acc : Text),
+    alphaValue s.reverse ≤ f → alphaLoop f (alphaValue s.reverse) acc = s.reverse ++ acc
+  | [], _, f, acc, _ => by
+    cases f <;> simp [alphaValue, alphaLoop]
+  | c :: s, hs, f, acc, hf => by
+    have hc : 97 ≤ c ∧ c ≤ 122 := hs c (by simp)
+    have hs' : ∀ x ∈ s, 97 ≤ x ∧ x ≤ 122 := fun x hx => hs x (by simp [hx])
+    simp only [List.reverse_cons, alphaValue_snoc] at hf ⊢
+    cases f with
+    | zero => omega
+    | succ f' =>
+      have hv : ¬ (alphaValue s.reverse * 26 + (c - 96) = 0) := by omega
+      have h1 : (alphaValue s.reverse * 26 + (c - 96) - 1) / 26 = alphaValue s.reverse := by omega
+      have h2 : 97 + (alphaValue s.reverse * 26 + (c - 96) - 1) % 26 = c := by omega
+      simp only [alphaLoop, hv, if_false, h1, h2]
+      rw [alphaLoop_of_value s hs' f' (c :: acc) (by omega)]
+      simp
+
+theorem alphaLoop_letters : ∀ (f v : Nat) (acc : Text), (∀ c ∈ acc, 97 ≤ c ∧ c ≤ 122) →
+    ∀ c ∈ alphaLoop f v acc, 97 ≤ c ∧ c ≤ 122
+  | 0, _, acc, h => by simpa [alphaLoop] using h
+  | f + 1, v, acc, h => by
+    simp only [alphaLoop]
+    by_cases hv : v = 0
+    · simpa [hv] using h
+    · simp only [hv, if_false]
+      apply alphaLoop_letters f
+      intro c hc
+      simp only [List.mem_cons] at hc
+      rcases hc with rfl | hc
+      · have := Nat.mod_lt (v - 1) (by decide : 26 > 0); omega
+      · exact h c hc
+
 end PdfVerif.Lemmas.LabelsExtra
